@@ -105,6 +105,7 @@ def gen_scenario(R, size="small", max_items=3):
     slow = R.randrange(2, 12) if R.random() < 0.08 else None      # a write the slowly reading peer takes 2.5 s to accept
     return {"kind": "data", "slow_write_at": slow, "pool": R.choice([1, 1, 2, 3, 4]), "items": items, "requests": requests, "script": script,
             "ext": ext, "chunks": chunks, "probe": R.random() < 0.5, "user": cred(), "password": cred(),
+            "sibling": R.choice([None, None, ("sibling-user", "sibling-password"), (None, None), ("", None)]),
             "early": R.random() < 0.3}
 
 
@@ -160,6 +161,8 @@ def run_real(scn, choose):
         sched.fine = _random.Random(scn["fine_seed"])
         sched.fine_p = scn.get("fine_p", 0.15)
         sched.fine_focus = set(scn.get("fine_focus") or []) or None
+        if scn.get("fine_files"):
+            sched.fine_files = tuple(sorted(set(sched.fine_files) | set(scn["fine_files"])))
         sched.max_chunks = 200000
     sock = shim.Socket()
     saved = shim.install(sched, sock, cpu=8)
@@ -287,6 +290,16 @@ def run_real(scn, choose):
     sock.slow_write_at = scn.get("slow_write_at")
     srv.remote_user, srv.remote_password = scn.get("user"), scn.get("password")
     run.srv = srv
+    if scn.get("sibling"):
+        # the usual deployment: a Metadata server configured in the same process (never started here) with its own name,
+        # credentials, keepalive and pool size — two servers are two independent objects
+        from lightstreamer_adapter.interfaces.metadata import MetadataProvider
+
+        class _SiblingAdapter(MetadataProvider):
+            pass
+        sib = S.MetadataProviderServer(_SiblingAdapter(), ("proxy", 6663), name="sibling", keep_alive=7, thread_pool_size=5)
+        sib.remote_user, sib.remote_password = scn["sibling"]
+        run.sibling = sib
 
     def snapshot():
         sm = srv._subscription_mgr
